@@ -105,6 +105,9 @@ def gen_trace20(rng, tier='quick'):
     if rng.random() < 0.3:
         options['lineWidth'] = 3
         options['grid'] = 1
+    if rng.random() < 0.2:
+        options.update(rng.choice([{'labels': 1, 'scale': 1.5}, {'width': '400px', 'conformal': False},
+                                   {'h': 0.3, 'p': -0.2, 'pointRadius': 2}, {'colors': [1, 2, 3], 'style': {'fill': 'none'}}]))
     if rng.random() < 0.25 and scalar_ids:
         options['camera'] = rng.choice(scalar_ids)
 
